@@ -12,6 +12,8 @@ FIX = {
  'reg-powerup': ('py4hw/logic/storage.py', [("        self.value = self.reset_value\r\n        \r\n    def clock(self):", "        self.value = self.reset_value\r\n        self.q.put(self.value)  # power-up: q shows the initial value, as the generated `reg rq = reset_value` does\r\n        \r\n    def clock(self):")]),
  'dualport-names': ('py4hw/logic/storage.py', [("        if (self.writea.get()):\r\n            self.data[wadd] = self.writedataa.get()", "        if (self.write_a.get()):\r\n            self.data[wadda] = self.writedata_a.get()"),
                                               ("        if (self.writeb.get()):\r\n            self.data[wadd] = self.writedatab.get()", "        if (self.write_b.get()):\r\n            self.data[waddb] = self.writedata_b.get()")]),
+ 'sp-negative-zero': ('py4hw/helper.py', [("        s,e,m = FloatingPointHelper.fp_to_parts(v)\n\n        if (m == 0):\n            return 0,0,0\n        else:\n            if (e >= 128):", "        s,e,m = FloatingPointHelper.fp_to_parts(v)\n\n        if (m == 0):\n            v = math.copysign(1, v)\n            s = 0 if v > 0 else 1\n            return s,0,0\n        else:\n            if (e >= 128):")]),
+ 'dualport-read-before-write': ('py4hw/logic/storage.py', [("        self.readdata_a.prepare(self.data[radda])\r\n        \r\n        if (self.write_a.get()):", "        self.readdata_a.prepare(self.data[radda])\r\n        self.readdata_b.prepare(self.data[raddb])\r\n        \r\n        if (self.write_a.get()):"), ("            self.data[wadda] = self.writedata_a.get()\r\n            \r\n        self.readdata_b.prepare(self.data[raddb])\r\n        \r\n", "            self.data[wadda] = self.writedata_a.get()\r\n            \r\n")]),
  'hp-subnormal-exponent': ('py4hw/helper.py', [("            # subnormal numbers\r\n            e = -16\r\n", "            # subnormal numbers\r\n            e = -14\r\n")]),
 }
 path, reps = FIX[fid]
